@@ -274,6 +274,10 @@ theorem Step.sends {d d' : Dev} {k k' : Trace} (h : Step d d' k k') :
   · left; rw [h4, Trace.sends_append, Trace.sends_append, hp, hq]; simp
   · right; exact ⟨bs, by rw [h4, Trace.sends_append, Trace.sends_append, hp, hq]; simp⟩
 
+theorem Step.extends {d d' : Dev} {k k' : Trace} (h : Step d d' k k') : ∃ e : Trace, k' = k ++ e :=
+  let ⟨_, _, _, pre, post, h4, _, _⟩ := h
+  ⟨pre ++ post, by rw [h4, List.append_assoc]⟩
+
 theorem Step.eofs {d d' : Dev} {k k' : Trace} (h : Step d d' k k') (hf : eofFlag d = false) : k'.eofs = k.eofs := by
   rcases h.sends with hs | ⟨bs, hs⟩
   · simp [Trace.eofs, hs]
@@ -729,23 +733,24 @@ theorem DevGood.step {d d' : Dev} {k k' : Trace} {inp inp' : Bytes} (g : DevGood
 theorem Dev.run_good : ∀ (ops : List DevOp) (d : Dev) (k : Trace) (inp : Bytes), DevGood d k inp →
     DevGood (Dev.run (d, k) ops).1 (Dev.run (d, k) ops).2 (inp ++ (ops.map DevOp.data).flatten) ∧
     (Dev.run (d, k) ops).1.rawMode = d.rawMode ∧
-    (d.rawMode = false → (Dev.run (d, k) ops).2.hdrs = k.hdrs) := by
+    (d.rawMode = false → (Dev.run (d, k) ops).2.hdrs = k.hdrs) ∧
+    (∃ e : Trace, (Dev.run (d, k) ops).2 = k ++ e) := by
   intro ops
   induction ops with
-  | nil => intro d k inp g; simpa [Dev.run] using g
+  | nil =>
+    intro d k inp g
+    simp only [Dev.run, List.foldl_nil, List.map_nil, List.flatten_nil, List.append_nil]
+    exact ⟨g, trivial, fun _ => trivial, [], by simp⟩
   | cons op ops ih =>
     intro d k inp g
     have ⟨h1, s1⟩ := Dev.step_spec d k inp op g.inv
     have g1 := g.step h1 s1
-    have ⟨g2, m2, hh2⟩ := ih _ _ _ g1
+    have ⟨g2, m2, hh2, e2, he2⟩ := ih _ _ _ g1
+    obtain ⟨e1, he1⟩ := s1.extends
     simp only [Dev.run, List.foldl_cons, List.map_cons, List.flatten_cons] at *
     rw [← List.append_assoc]
-    refine ⟨g2, by rw [m2, s1.mode], fun hm => ?_⟩
+    refine ⟨g2, by rw [m2, s1.mode], fun hm => ?_, e1 ++ e2, by rw [he2, he1, List.append_assoc]⟩
     rw [hh2 (by rw [s1.mode]; exact hm), s1.hdrs_nonraw hm]
-
-/-- a freshly opened device of either kind, in any io mode -/
-def Dev.fresh (isAsync full raw : Bool) (n : Nat) : Dev :=
-  ({ isAsync := isAsync, fullBuffering := full, rawMode := raw } : Dev).open n
 
 theorem Dev.fresh_inv (isAsync full raw : Bool) (n : Nat) (k : Trace) (hk : k.sends = []) :
     (Dev.fresh isAsync full raw n).Inv k [] ∧ Quiet (Dev.fresh isAsync full raw n) k ∧ (Dev.fresh isAsync full raw n).rawMode = raw := by
@@ -763,7 +768,7 @@ theorem Dev.close_spec (d : Dev) (k : Trace) (inp : Bytes) (g : DevGood d k inp)
     (d.close traceIf k).2.sends = k.sends ++ [((filterOf d.rawMode inp).drop k.bytes.length, true)] ∧
     (d.close traceIf k).1.Inv (d.close traceIf k).2 inp ∧ Sealed (d.close traceIf k).1 ∧
     RawOk (d.close traceIf k).1 (d.close traceIf k).2 ∧ (d.close traceIf k).1.rawMode = d.rawMode ∧
-    (d.rawMode = false → (d.close traceIf k).2.hdrs = k.hdrs) := by
+    (d.rawMode = false → (d.close traceIf k).2.hdrs = k.hdrs) ∧ (∃ e : Trace, (d.close traceIf k).2 = k ++ e) := by
   obtain ⟨h, ⟨q1, q2, q3⟩, r⟩ := g
   unfold Dev.close
   rw [if_neg (by rw [q2]; exact Bool.false_ne_true)]
@@ -784,7 +789,7 @@ theorem Dev.close_spec (d : Dev) (k : Trace) (inp : Bytes) (g : DevGood d k inp)
   have hseal : Sealed ({ d with final := true }.flush traceIf k).1 := by
     refine ⟨by rw [f4.final], ?_⟩
     rw [f8, hflag]; simp
-  refine ⟨f6, ?_, ?_, hk, f1, hseal, ?_, f4.mode, fun hm => f4.hdrs_nonraw hm⟩
+  refine ⟨f6, ?_, ?_, hk, f1, hseal, ?_, f4.mode, fun hm => f4.hdrs_nonraw hm, f4.extends⟩
   · unfold Dev.content; rw [f2]; simp
   · simp only [Trace.eofs] at q3 ⊢
     rw [hk, List.filter_append]
